@@ -11,13 +11,13 @@ def run(ctx, args):
     q = ctx.quick
     fails = []
     total = 0
-    for cfg, stride in ((("MC_ProxyC17reqq.cfg", 5), ("MC_ProxyC17resp.cfg", 2)) if q else (("MC_ProxyC17req.cfg", 1), ("MC_ProxyC17resp.cfg", 1))):
+    for cfg, stride in ((("MC_ProxyC17reqq.cfg", 5), ("MC_ProxyC17resp.cfg", 2)) if q else (("MC_ProxyC17req.cfg", 2), ("MC_ProxyC17resp.cfg", 1))):
         beh = os.path.join(ctx.scratch, "recipes_%s.ndjson" % cfg)
         # leg M: the line-level operators of the model commute with regrouping (TwinOK) on every recipe; and emission
         ctx.emit("MC_Proxy", cfg, beh, count=True, timeout=1800)
         total += len(set(open(beh).read().splitlines()))
         trace = os.path.join(ctx.scratch, "twin_%s.ndjson" % cfg)
-        rc, out = ctx.run_driver("TestVfTwin", env={"VERIF_IN": beh, "VERIF_TRACE": trace, "VERIF_STRIDE": stride, "VERIF_REPS": 2 if q else 4, "VERIF_HARD": 1},
+        rc, out = ctx.run_driver("TestVfTwin", env={"VERIF_IN": beh, "VERIF_TRACE": trace, "VERIF_STRIDE": stride, "VERIF_REPS": 2, "VERIF_HARD": 1},
                                  timeout=3000, allow_fail=True)
         if rc != 0:
             crash_or_infra(ctx, "C17", out)
